@@ -50,6 +50,63 @@ func (e *Engine) registerIntrinsics() {
 		st.top().discard = true
 		return pushedFrame{}
 	}
+	n["strings.Split"] = func(e *Engine, st *State, a []Value, ci ssa.CallInstruction) Value {
+		s, sep := a[0].(Slice), a[1].(Slice)
+		if !sep.Len.IsConst() || sep.Len.C != 1 {
+			panic(abortSignal{"strings.Split: only 1-byte separators are modelled"})
+		}
+		sepb := Select(st.obj(sep.Obj).Arr, sep.Off)
+		strT := ci.Common().Args[0].Type()
+		if _, abs := st.ghost["abstractStrings"]; abs && !s.Len.IsConst() {
+			// abstraction: one element (the content is not relied upon by the caller's assertions)
+			e.stubs["strings.Split(abstracted)"] = true
+			id := st.newCells(strT, []Value{s})
+			return Slice{Obj: id, Off: U64(0), Len: U64(1), Cap: U64(1)}
+		}
+		n := st.concreteSize(s.Len, "strings.Split length")
+		var arr *Term
+		if s.Obj != 0 {
+			arr = st.obj(s.Obj).Arr
+		}
+		var cuts []int
+		for i := 0; i < n; i++ {
+			if st.decide(Eq(Select(arr, BVAdd(s.Off, U64(uint64(i)))), sepb)) {
+				cuts = append(cuts, i)
+			}
+		}
+		var parts []Value
+		start := 0
+		mk := func(lo, hi int) Value {
+			if s.Obj == 0 {
+				return Slice{Obj: 0, Off: U64(0), Len: U64(0), Cap: U64(0)}
+			}
+			l := U64(uint64(hi - lo))
+			return Slice{Obj: s.Obj, Off: BVAdd(s.Off, U64(uint64(lo))), Len: l, Cap: l}
+		}
+		for _, c := range cuts {
+			parts = append(parts, mk(start, c))
+			start = c + 1
+		}
+		parts = append(parts, mk(start, n))
+		id := st.newCells(strT, parts)
+		k := U64(uint64(len(parts)))
+		return Slice{Obj: id, Off: U64(0), Len: k, Cap: k}
+	}
+	n["strings.Join"] = func(e *Engine, st *State, a []Value, ci ssa.CallInstruction) Value {
+		el, sep := a[0].(Slice), a[1].(Slice)
+		cnt := st.concreteSize(el.Len, "strings.Join count")
+		if cnt == 0 {
+			return Slice{Obj: 0, Off: U64(0), Len: U64(0), Cap: U64(0)}
+		}
+		off := st.concreteIndex(el.Off, 1<<20, "strings.Join")
+		o := st.obj(el.Obj)
+		var res Value = o.Cells[off]
+		for i := 1; i < cnt; i++ {
+			res = e.concat(st, res.(Slice), sep)
+			res = e.concat(st, res.(Slice), o.Cells[off+i].(Slice))
+		}
+		return res
+	}
 	nop := func(e *Engine, st *State, a []Value, ci ssa.CallInstruction) Value { return nil }
 	n["(*sync.Mutex).Lock"] = nop
 	n["(*sync.Mutex).Unlock"] = nop
